@@ -49,7 +49,8 @@ def _raises(body, region, reason):
 
 
 def _delegations(ctx, body, region):
-    return {b for b in region if body.term(b)["k"] == "call" and C02._is_compile_call(ctx, body.term(b)) and body.term(b)["dest"]["l"] == 0 and not body.term(b)["dest"]["p"]}
+    return {b for b in region if body.term(b)["k"] == "call" and C02._is_compile_call(ctx, body.term(b)) and not body.term(b)["dest"]["p"]
+            and (body.term(b)["dest"]["l"] == 0 or C02._returned_as_is(ctx, body, body.term(b)["dest"]["l"]))}
 
 
 def _signed_true_edges(body, region):
